@@ -1913,6 +1913,14 @@ def _c18_gen_more(self, ctx):
 
 C18.gen = _c18_gen_more
 
+CORPUS_KINDS = {
+    "C01": ("req",), "C02": ("resp",), "C03": ("req",), "C04": ("resp",), "C05": ("resp",),
+    "C06": ("req", "resp", "dec", "txt", "genreq", "genresp", "reusereq", "reuseresp", "decseq", "rtreq", "rtresp"),
+    "C07": ("req", "resp"), "C08": ("req",), "C09": ("req", "resp"), "C10": ("genreq", "genresp"),
+    "C11": ("rtreq", "rtresp"), "C12": ("resp",), "C13": ("dec", "decseq"), "C14": ("dec",), "C15": ("dec", "decseq"),
+    "C16": ("txt",), "C17": ("req", "resp"), "C18": ("req", "resp", "dec", "txt"),
+}
+
 PROPS = {c.id: c for c in (C01, C02, C03, C04, C05, C06, C07, C08, C09, C10, C11, C12, C13, C14, C15, C16, C17, C18)}
 
 TRUSTED_BASE = [
@@ -2051,13 +2059,22 @@ def run(prop_id, tier, seed, replay=None):
     # the corpus (inputs that once told a broken tree from the real one; tools/seeded.py corpus) runs first,
     # through the model/implementation comparison only: its cases carry no generator metadata
     cctx = Ctx(prop_id, tier, seed)
-    corpus = os.path.join(ROOT, "corpus", prop_id)
-    if not replay and os.path.isdir(corpus):
-        for fn in sorted(os.listdir(corpus)):
-            for line in open(os.path.join(corpus, fn)):
-                parts = line.rstrip("\n").split("\t")
-                if len(parts) >= 1 and parts[0]:
-                    cctx.add(parts[0], parts[1:], corpus=fn)
+    # the property's own corpus, then the corpus cases of the other properties that are about the same
+    # operation (same case kinds): an input that once told a broken parser from the real one under C03 is an
+    # input of C01, C08, C09 too
+    kinds_of = getattr(P, "corpus_kinds", CORPUS_KINDS.get(prop_id, ()))
+    if not replay:
+        seen = set()
+        for owner in [prop_id] + sorted(x for x in os.listdir(os.path.join(ROOT, "corpus")) if x != prop_id):
+            cdir = os.path.join(ROOT, "corpus", owner)
+            if not os.path.isdir(cdir):
+                continue
+            for fn in sorted(os.listdir(cdir)):
+                for line in open(os.path.join(cdir, fn)):
+                    parts = line.rstrip("\n").split("\t")
+                    if len(parts) >= 1 and parts[0] and (owner == prop_id or parts[0] in kinds_of) and tuple(parts) not in seen:
+                        seen.add(tuple(parts))
+                        cctx.add(parts[0], parts[1:], corpus=f"{owner}/{fn}")
     corpus_bad = []
     if cctx.cases:
         for prof in P.profiles:
